@@ -79,7 +79,7 @@ fn attr_list() -> BoxedStrategy<Vec<String>> {
         1 => Just("1.1".to_string()),
         1 => (gens::descr(), "[a-z0-9-]{1,5}").prop_map(|(d, o)| format!("{};{}", d, o)),
     ];
-    vec(a, 1..5).boxed()
+    prop_oneof![4 => vec(a.clone(), 1..5), 2 => vec(a, 5..12)].boxed()
 }
 
 fn casevary(s: &'static str) -> BoxedStrategy<String> {
@@ -185,7 +185,24 @@ impl<'a> W<'a> {
 pub fn format_url(c: &UrlCase) -> (String, usize) {
     let mut w = W { enc: &c.enc, n: 0, forced: 0 };
     let mut u = c.prefix.clone();
-    w.put(&c.base, b"?/\\", &mut u);
+    // '/' is a reserved character that RFC 4516 allows raw in the dn part; written raw unless a
+    // path segment would then be "." or ".." (which every URL parser normalises away)
+    {
+        let save = (w.n, w.forced);
+        let mut b = String::new();
+        w.put(&c.base, b"?\\", &mut b);
+        let dotty = b.split('/').any(|seg| {
+            let l = seg.to_ascii_lowercase().replace("%2e", ".");
+            l == "." || l == ".."
+        });
+        if dotty {
+            w.n = save.0;
+            w.forced = save.1;
+            b.clear();
+            w.put(&c.base, b"?/\\", &mut b);
+        }
+        u.push_str(&b);
+    }
     if let Inject::BadUtf8Base = c.inject {
         u.push_str("%C3%28");
     }
